@@ -9,9 +9,10 @@ import SevenZ.Driver.Listing
 import SevenZ.Driver.Aes
 import SevenZ.Driver.Crc
 import SevenZ.Driver.Writer
+import SevenZ.Driver.Conc
 open SevenZ.Driver
 
-def handlers : List (String → List String → Option String) := [primHandler, headerHandler, pathHandler, decHandler, readerHandler, specHandler, listingHandler, aesHandler, crcHandler, writerHandler]
+def handlers : List (String → List String → Option String) := [primHandler, headerHandler, pathHandler, decHandler, readerHandler, specHandler, listingHandler, aesHandler, crcHandler, writerHandler, concHandler]
 
 def step (line : String) : String :=
   match (line.trimAscii.toString.splitOn " ").filter (· ≠ "") with
